@@ -110,6 +110,10 @@ func main() {
 	} else if asm != "" {
 		write("Asm.lean", asm)
 	}
-	fmt.Println("gen: ok")
+	if status == 0 {
+		fmt.Println("gen: ok")
+	} else {
+		fmt.Println("gen: FAILED (see messages above)")
+	}
 	os.Exit(status)
 }
